@@ -340,7 +340,11 @@ class Builder:
 
     def subrt_compile_subroutine(self, pre_subroutine: ProtoSubroutine) -> Subroutine:
         """Convert a ProtoSubroutine into a Subroutine."""
-        subroutine: Subroutine = assemble_subroutine(pre_subroutine)
+        # Registers that are still claimed (Builder.new_register) keep their value on
+        # the controller across subroutines: the assembler must not use them as scratch.
+        subroutine: Subroutine = assemble_subroutine(
+            pre_subroutine, reserved_registers=self._mem_mgr._active_registers
+        )
         if self._compiler is not None:
             subroutine = self._compiler(subroutine=subroutine).transpile()
         if self._track_lines:
